@@ -9,8 +9,12 @@ package main
 // multipliers and its regular expression lazily); cases on a built-in set are additionally run on
 // the package variable and the two results are compared.
 //
-// Streams (field "note" of a case): roundtrip, wellformed, nearmiss, floats, floats:huge, nonwf.
-// floats:huge is 1e15 < x < 2^63; floats x >= 2^63 are only counted (stats "floats:beyond_int64:*").
+// Streams (field "note" of a case): roundtrip, wellformed, nearmiss, floats, floats:huge, nonwf,
+// longdigits. floats:huge is 1e15 < x < 2^63; floats x >= 2^63 are only counted (stats
+// "floats:beyond_int64:*"). longdigits: counts of 1..400 digits (around the float64 range limit of
+// 308/309 digits in particular, leading zeros too) with and without a fraction, through ParseInt,
+// ParseFloat and through int and float schemas carrying the definition (op "U" cases of the schema
+// model); a returned float must be finite: beyond the float64 range the answer is an error.
 // All randomness derives from Args.Seed; no Go map is iterated to produce output.
 
 import (
@@ -51,16 +55,19 @@ type unitsCfg struct {
 	floatRandoms int   // random floats per definition
 	nonwfDefs    int   // definitions in stream (e)
 	floatRich    bool  // more multiples of every multiplier in stream (d)
+	longDefs     int   // generated definitions in stream (f) (plus the built-ins and the featured ones)
+	longPerDef   int   // strings per definition in stream (f)
 }
 
 func unitsTier(tier string) unitsCfg {
 	switch tier {
 	case "quick", "":
 		return unitsCfg{exhaustN: 300, exhaustGen: 3, specialDefs: 4, rtRandoms: 10, pool: 80,
-			wellformed: 2600, nearmiss: 2600, floatDefs: 4, floatRandoms: 25, nonwfDefs: 40}
+			wellformed: 2600, nearmiss: 2600, floatDefs: 4, floatRandoms: 25, nonwfDefs: 40, longDefs: 4, longPerDef: 90}
 	case "thorough":
 		return unitsCfg{exhaustN: 200000, exhaustGen: 6, specialDefs: 150, rtRandoms: 40, pool: 800,
-			wellformed: 120000, nearmiss: 110000, floatDefs: 70, floatRandoms: 260, nonwfDefs: 800, floatRich: true}
+			wellformed: 120000, nearmiss: 110000, floatDefs: 70, floatRandoms: 260, nonwfDefs: 800, floatRich: true,
+			longDefs: 60, longPerDef: 260}
 	}
 	fmt.Fprintln(os.Stderr, "units: unknown tier", tier)
 	os.Exit(2)
@@ -71,9 +78,10 @@ const (
 	unitsPFMax      = 60  // PARSEF cases of generated strings: shorter than this many bytes
 	unitsPFMaxFloat = 160 // PARSEF cases of formatter output (stream d)
 	unitsFindingCap = 2000
+	unitsPFRun      = 40 // longer digit runs get a reduced strconv table (see unitsPF)
 )
 
-var unitsStreamNames = []string{"roundtrip", "wellformed", "nearmiss", "floats", "nonwf"}
+var unitsStreamNames = []string{"roundtrip", "wellformed", "nearmiss", "floats", "nonwf", "longdigits"}
 
 // ---------------------------------------------------------------------------------------------
 // built-in sets
@@ -554,8 +562,24 @@ func unitsPF(str string) []byte {
 		for k < len(str) && isDig(str[k]) {
 			k++
 		}
+		r0 := i
+		for r0 > 0 && isDig(str[r0-1]) {
+			r0--
+		}
+		if k-r0 > unitsPFRun && i > r0 {
+			// inside a long digit run: a capture starting here would need a unit name that ends in
+			// digits; the table of such strings is kept to the captures that start at the run
+			continue
+		}
 		if k+1 < len(str) && str[k] == '.' && isDig(str[k+1]) {
 			for j := k + 2; j <= len(str) && isDig(str[j-1]); j++ {
+				lim := unitsPFRun
+				if k-r0 > unitsPFRun {
+					lim = 2
+				}
+				if j-(k+1) > lim && j < len(str) && isDig(str[j]) {
+					continue // long number: only the full fraction (and its first digits)
+				}
 				add(str[i:j])
 			}
 		}
@@ -647,12 +671,16 @@ func (p *refParser) rec(pos, k int, acc *big.Int, frac string) {
 	}
 	un := p.us[k]
 	for l := 1; l <= d; l++ {
-		cnt, ok := new(big.Int).SetString(p.s[pos:pos+l], 10)
-		if !ok {
-			panic("units: refParse count")
+		// (the big-number value of a count is only computed where something can follow it: very
+		// long digit runs would otherwise cost a quadratic number of conversions)
+		if q := p.skip(pos + l); un.base || p.nameAt(q, un) {
+			cnt, ok := new(big.Int).SetString(p.s[pos:pos+l], 10)
+			if !ok {
+				panic("units: refParse count")
+			}
+			acc2 := new(big.Int).Add(acc, cnt.Mul(cnt, big.NewInt(un.m)))
+			p.afterCount(pos+l, k, acc2, "")
 		}
-		acc2 := new(big.Int).Add(acc, cnt.Mul(cnt, big.NewInt(un.m)))
-		p.afterCount(pos+l, k, acc2, "")
 		if un.base && p.allowFrac && pos+l < len(p.s) && p.s[pos+l] == '.' {
 			f := 0
 			for pos+l+1+f < len(p.s) && isDig(p.s[pos+l+1+f]) {
@@ -663,6 +691,15 @@ func (p *refParser) rec(pos, k int, acc *big.Int, frac string) {
 			}
 		}
 	}
+}
+
+func (p *refParser) nameAt(q int, un uUnit) bool {
+	for _, n := range un.names {
+		if strings.HasPrefix(p.s[q:], n) {
+			return true
+		}
+	}
+	return false
 }
 
 func (p *refParser) afterCount(q, k int, acc *big.Int, frac string) {
@@ -743,11 +780,51 @@ func (s *unitsSink) checkParseInt(u *hx.Units, str string, res unitsRes, id int,
 	}
 }
 
+// unitsShort abbreviates a long digit string for a finding text.
+func unitsShort(x string) string {
+	if len(x) <= 48 {
+		return x
+	}
+	digits := 0
+	for i := 0; i < len(x); i++ {
+		if isDig(x[i]) {
+			digits++
+		}
+	}
+	return fmt.Sprintf("%s...%s (%d bytes, %d digits)", x[:20], x[len(x)-16:], len(x), digits)
+}
+
+// checkFinite: a float handed back WITHOUT an error is a number. +Inf, -Inf or NaN as the result of
+// parsing a string of digits is "a wrong number" (C16): beyond the float64 range the answer is an
+// error. Holds for every definition; returns true if it reported.
+func (s *unitsSink) checkFinite(who string, u *hx.Units, str string, res unitsRes, id int) bool {
+	if res.R != "ok" || !(math.IsInf(res.F, 0) || math.IsNaN(res.F)) {
+		return false
+	}
+	which := "NaN"
+	switch {
+	case math.IsInf(res.F, 1):
+		which = "+Inf"
+	case math.IsInf(res.F, -1):
+		which = "-Inf"
+	}
+	var ids []int
+	if id > 0 {
+		ids = []int{id}
+	}
+	s.finding(who+" returned "+which+" without an error", ids, u, str, "got "+res.show("UNITS_PARSEF"),
+		"want a finite float64, or an error when the value is beyond the float64 range", "input "+unitsShort(str))
+	return true
+}
+
 // checkParseFloat is the oracle of ParseFloat on an arbitrary string (WF definitions only).
 func (s *unitsSink) checkParseFloat(u *hx.Units, str string, res unitsRes, id int, sums []*big.Int) {
 	const op = "UNITS_PARSEF"
 	if res.R == "panic" {
 		s.finding("ParseFloat panicked", []int{id}, u, str, "got "+res.show(op), "want a number or an error")
+		return
+	}
+	if s.checkFinite("ParseFloat", u, str, res, id) {
 		return
 	}
 	switch {
@@ -789,9 +866,19 @@ func (s *unitsSink) checkParseFloat(u *hx.Units, str string, res unitsRes, id in
 			}
 		default:
 			s.stats["oracle:float:frac"]++
-			f, err := strconv.ParseFloat(alts[0].frac, 64)
-			if err != nil {
-				s.stats["oracle:float:frac-unparsable-skipped"]++
+			// exact big-number oracle of the fractional count (independent of strconv): the nearest
+			// float64, or "beyond the range" when the exact value rounds to an infinity
+			r, okr := new(big.Rat).SetString(alts[0].frac)
+			if !okr {
+				panic("units: oracle cannot read " + alts[0].frac)
+			}
+			f, _ := r.Float64()
+			if math.IsInf(f, 0) {
+				s.stats["oracle:float:frac-beyond-float64"]++
+				if res.R == "ok" {
+					s.finding("a count beyond the float64 range is accepted (ParseFloat)", []int{id}, u, str,
+						"got "+res.show(op), "want an error: the exact value of the count "+unitsShort(alts[0].frac)+" rounds to no finite float64")
+				}
 				return
 			}
 			want := float64(alts[0].sum.Int64()) + f
@@ -1707,6 +1794,9 @@ func unitsCmd(a Args) {
 	if all || want["nonwf"] {
 		unitsStreamNonWF(s, g, cfg)
 	}
+	if all || want["longdigits"] {
+		unitsStreamLongDigits(s, g, cfg, pool)
+	}
 	s.close()
 	gen := map[string]any{}
 	for k, v := range g.st {
@@ -2220,6 +2310,258 @@ func unitsLateMultipliers(s *unitsSink) {
 			if fres.R == "ok" && fres.F != float64(tc.want) {
 				s.finding("ParseFloat returns a wrong number on a definition whose multiplier table was extended after its first use", nil, nil, tc.s,
 					history, fmt.Sprintf("the string stands for %d, got %v without an error", tc.want, fres.F))
+			}
+		}
+	}
+}
+
+// ---------------------------------------------------------------------------------------------
+// (f) longdigits: very long counts, with and without a fraction
+
+// unitsFloatEdges: the largest float64 (2^1024-2^971), the largest integer that still rounds to it
+// (2^1024-2^970-1) and the smallest one that rounds to +Inf (2^1024-2^970: the midpoint between
+// MaxFloat64 and 2^1024, and ties go to the even neighbour, which is 2^1024).
+func unitsFloatEdges() (maxF, lastIn, firstOut *big.Int) {
+	one := big.NewInt(1)
+	p1024 := new(big.Int).Lsh(one, 1024)
+	maxF = new(big.Int).Sub(p1024, new(big.Int).Lsh(one, 971))
+	firstOut = new(big.Int).Sub(p1024, new(big.Int).Lsh(one, 970))
+	lastIn = new(big.Int).Sub(firstOut, one)
+	return
+}
+
+var unitsLongLens = []int{1, 2, 17, 18, 19, 20, 21, 39, 40, 41, 100, 200, 300, 305, 306, 307, 308, 309, 310, 311, 312,
+	320, 325, 326, 350, 399, 400}
+
+// longRun returns a digit string of 1..400 digits and what it is.
+func (g *unitsGen) longRun() (string, string) {
+	maxF, lastIn, firstOut := unitsFloatEdges()
+	pad := func(x string) string { // leading zeros, total at most 400 digits
+		room := 400 - len(x)
+		if room <= 0 {
+			return x
+		}
+		z := []int{1, 2, 5, 50, 91, room}[g.r.Intn(6)]
+		if z > room {
+			z = room
+		}
+		return strings.Repeat("0", z) + x
+	}
+	n := unitsLongLens[g.r.Intn(len(unitsLongLens))]
+	if g.p(0.3) {
+		n = 1 + g.r.Intn(400)
+	}
+	switch x := g.r.Intn(100); {
+	case x < 22:
+		return g.digits(n), "random"
+	case x < 28:
+		return strings.Repeat("9", n), "nines"
+	case x < 34:
+		return "1" + strings.Repeat("0", n-1), "power-of-ten"
+	case x < 40:
+		return maxF.String(), "max-float64"
+	case x < 48:
+		return lastIn.String(), "last-in-range"
+	case x < 56:
+		return firstOut.String(), "first-out-of-range"
+	case x < 66:
+		// 309 digits sharing a prefix with the edge: on either side of it
+		e := firstOut.String()
+		k := 1 + g.r.Intn(20)
+		return e[:k] + g.digits(len(e)-k), "near-edge"
+	case x < 72:
+		// the edge plus or minus a little
+		d := big.NewInt(int64(g.r.Intn(2000) - 1000))
+		return new(big.Int).Add(firstOut, d).String(), "edge-plus-minus"
+	case x < 80:
+		return pad(g.digits(1 + g.r.Intn(18))), "zeros+small"
+	case x < 87:
+		return pad([]string{maxF.String(), lastIn.String(), firstOut.String()}[g.r.Intn(3)]), "zeros+edge"
+	case x < 93:
+		return pad(g.digits(1 + g.r.Intn(330))), "zeros+random"
+	default:
+		return strings.Repeat("0", n), "all-zeros"
+	}
+}
+
+func (g *unitsGen) longFraction() (string, string) {
+	switch x := g.r.Intn(100); {
+	case x < 34:
+		return "", "none"
+	case x < 42:
+		return ".0", ".0"
+	case x < 50:
+		return ".5", ".5"
+	case x < 60:
+		return ".87890", "short"
+	case x < 70:
+		return "." + strings.Repeat("9", 1+g.r.Intn(30)), "nines"
+	case x < 80:
+		return "." + g.digits(1+g.r.Intn(12)), "short"
+	case x < 88:
+		return "." + g.digits(100+g.r.Intn(250)), "long"
+	case x < 94:
+		return "." + strings.Repeat("0", 1+g.r.Intn(60)) + "1", "zeros-then-one"
+	default:
+		return "." + strings.Repeat("0", 1+g.r.Intn(40)), "zeros"
+	}
+}
+
+// schemaCase: the string through an int or float schema carrying the definition (operation
+// Unserialize, op "U" of the schema model; UnserializeType is run too and must agree).
+func (s *unitsSink) schemaCase(u *hx.Units, str string, float bool, note string) (hx.Result, unitsRes, int) {
+	s.nextID++
+	id := s.nextID
+	kind := "int"
+	if float {
+		kind = "float"
+	}
+	b := s.buf[:0]
+	b = append(b, `{"id":`...)
+	b = strconv.AppendInt(b, int64(id), 10)
+	b = append(b, `,"op":"U","schema":{"t":"`...)
+	b = append(b, kind...)
+	b = append(b, `","units":`...)
+	b = append(b, s.unitsJSON(u)...)
+	b = append(b, `},"v":{"s":`...)
+	b = append(b, unitsQ(str)...)
+	b = append(b, '}')
+	if float {
+		b = append(b, `,"ext":`...)
+		b = append(b, unitsPF(str)...)
+	}
+	b = append(b, `,"fuel":50,"note":`...)
+	b = append(b, unitsQ(note)...)
+	b = append(b, '}', '\n')
+	s.cases.Write(b)
+	s.buf = b
+	var plain unitsRes
+	res := hx.Guard(func() hx.Result {
+		if float {
+			sch := schema.NewFloatSchema(nil, nil, u.Build())
+			r, out := hx.RunOpRaw("U", sch, str)
+			if f, ok := out.(float64); ok && r.R == "ok" {
+				plain = unitsRes{R: "ok", F: f}
+			} else {
+				plain = unitsRes{R: r.R, Msg: r.Msg}
+			}
+			f2, err := schema.NewFloatSchema(nil, nil, u.Build()).UnserializeType(str)
+			if (err == nil) != (r.R == "ok") || (err == nil && unitsBits(f2) != unitsBits(plain.F)) {
+				s.finding("FloatSchema.UnserializeType differs from Unserialize", []int{id}, u, str,
+					"Unserialize "+plain.show("UNITS_PARSEF"), fmt.Sprintf("UnserializeType %v %v", f2, err))
+			}
+			return r
+		}
+		sch := schema.NewIntSchema(nil, nil, u.Build())
+		r, out := hx.RunOpRaw("U", sch, str)
+		if i, ok := out.(int64); ok && r.R == "ok" {
+			plain = unitsRes{R: "ok", I: i}
+		} else {
+			plain = unitsRes{R: r.R, Msg: r.Msg}
+		}
+		i2, err := schema.NewIntSchema(nil, nil, u.Build()).UnserializeType(str)
+		if (err == nil) != (r.R == "ok") || (err == nil && i2 != plain.I) {
+			s.finding("IntSchema.UnserializeType differs from Unserialize", []int{id}, u, str,
+				"Unserialize "+plain.show("UNITS_PARSE"), fmt.Sprintf("UnserializeType %v %v", i2, err))
+		}
+		return r
+	})
+	if res.R == "panic" {
+		plain = unitsRes{R: "panic", Msg: res.Msg}
+	}
+	res.Msg = unitsTrunc(res.Msg)
+	rb, err := json.Marshal(res)
+	if err != nil {
+		panic(err)
+	}
+	s.results.Write(rb)
+	s.results.WriteByte('\n')
+	op := "U:" + kind
+	s.stats["cases"]++
+	s.stats["stream:longdigits"]++
+	s.stats["op:"+op]++
+	s.stats["res:"+op+":"+res.R]++
+	s.stats["stream-op:longdigits:"+op]++
+	return res, plain, id
+}
+
+func unitsStreamLongDigits(s *unitsSink, g *unitsGen, cfg unitsCfg, pool []*hx.Units) {
+	var defs []*hx.Units
+	for _, b := range unitsBuiltins() {
+		defs = append(defs, b.u)
+	}
+	defs = append(defs, unitsFeatured()...)
+	for i := 0; i < cfg.longDefs && len(pool) > 0; i++ {
+		defs = append(defs, pool[g.r.Intn(len(pool))])
+	}
+	for _, u := range defs {
+		g.classify("longdigits", u)
+		us := unitsOrder(u)
+		base := us[len(us)-1]
+		for i := 0; i < cfg.longPerDef; i++ {
+			run, rkind := g.longRun()
+			frac, fkind := g.longFraction()
+			place := "base-named"
+			var str string
+			small := func() string { return strconv.Itoa(g.r.Intn(60)) }
+			switch x := g.r.Intn(100); {
+			case x < 40:
+				str = run + frac + base.names[g.r.Intn(4)]
+			case x < 55:
+				place = "base-bare"
+				str = run + frac
+			case x < 75 && len(us) > 1:
+				place = "after-multiplier"
+				m := us[g.r.Intn(len(us)-1)]
+				str = small() + m.names[g.r.Intn(4)] + g.ws() + run + frac + g.ws() + base.names[g.r.Intn(4)]
+			case x < 90 && len(us) > 1:
+				place = "multiplier-count"
+				m := us[g.r.Intn(len(us)-1)]
+				str = run + frac + m.names[g.r.Intn(4)]
+				if g.p(0.5) {
+					str += small() + base.names[g.r.Intn(4)]
+				}
+			case len(us) > 1:
+				place = "both-long"
+				m := us[g.r.Intn(len(us)-1)]
+				run2, _ := g.longRun()
+				str = run2 + m.names[g.r.Intn(4)] + run + frac + base.names[g.r.Intn(4)]
+			default:
+				place = "base-spaced"
+				str = g.outerWS() + run + frac + g.ws() + base.names[g.r.Intn(4)] + g.outerWS()
+			}
+			g.st["longdigits:strings"]++
+			g.st["longdigits:run:"+rkind]++
+			g.st["longdigits:fraction:"+fkind]++
+			g.st["longdigits:place:"+place]++
+			g.st[fmt.Sprintf("longdigits:digits:%d-%d", len(run)/50*50, len(run)/50*50+49)]++
+			note := "longdigits:" + place + ":" + rkind + ":" + fkind
+			sums := refParseAll(u, str)
+			// ParseInt, ParseFloat
+			res, id := s.parseCase(u, str, note)
+			s.checkParseInt(u, str, res, id, sums)
+			fres, fid := s.parseFCase(u, str, note)
+			s.checkParseFloat(u, str, fres, fid, sums)
+			switch {
+			case fres.R != "ok":
+				g.st["longdigits:ParseFloat:error"]++
+			case math.Abs(fres.F) == math.MaxFloat64:
+				g.st["longdigits:ParseFloat:max-float64"]++
+			case math.Abs(fres.F) > 1e300:
+				g.st["longdigits:ParseFloat:above-1e300"]++
+			default:
+				g.st["longdigits:ParseFloat:finite"]++
+			}
+			// the same string through schemas that carry the definition
+			_, ip, iid := s.schemaCase(u, str, false, note)
+			if ip.key("UNITS_PARSE") != res.key("UNITS_PARSE") {
+				s.finding("IntSchema with units differs from ParseInt", []int{id, iid}, u, str,
+					"ParseInt "+res.show("UNITS_PARSE"), "IntSchema.Unserialize "+ip.show("UNITS_PARSE"))
+			}
+			_, fp, fsid := s.schemaCase(u, str, true, note)
+			if !s.checkFinite("FloatSchema.Unserialize", u, str, fp, fsid) && fp.key("UNITS_PARSEF") != fres.key("UNITS_PARSEF") {
+				s.finding("FloatSchema with units differs from ParseFloat", []int{fid, fsid}, u, str,
+					"ParseFloat "+fres.show("UNITS_PARSEF"), "FloatSchema.Unserialize "+fp.show("UNITS_PARSEF"))
 			}
 		}
 	}
